@@ -434,7 +434,7 @@ def main(run):
     wpath = os.path.join(wdir, "worker.py")
     open(wpath, "w").write(WORKER)
     cache = run.scratch.dll
-    infos = {m: load_model_info(m) for m in set(MODELS_1D + MODELS_2D + ["ellipsoid"])}
+    infos = {m: load_model_info(m) for m in set(MODELS_1D + MODELS_2D + ["ellipsoid", "hayter_msa"])}
     nhist = 6 if not thorough else 60
     length = 18 if not thorough else 40
     # warm the library cache so that parallel fresh processes do not all compile
@@ -480,6 +480,15 @@ def main(run):
                          for qv_ in ([0.01, 0.05, 0.2], [0.02, 0.1, 0.4], [0.015, 0.06, 0.3])] +
                         [dict(op="call_kernel", model="cylinder", q=qv_, cutoff=0.0, pars={"radius": 20.0, "length": 300.0, "theta": 40.0, "phi": 10.0}, same_q_arrays=True)
                          for qv_ in ([[0.03, -0.05, 0.1], [0.04, 0.05, -0.02]], [[0.06, -0.1, 0.2], [0.08, 0.1, -0.04]])])
+    # corpus: a structure factor whose iteration does not converge for this parameter set (the documented answer is NaN at
+    # the low q value): asked twice on one kernel, then on a new kernel, then after another parameter set
+    hm_ = {"radius_effective": 20.75, "charge": 1.0, "volfraction": 0.4, "concentration_salt": 0.001}
+    hq_ = [[0.001, 0.05, 0.1, 0.3]]
+    histories.insert(1, [dict(op="call_kernel", model="hayter_msa", q=hq_, cutoff=0.0, pars=dict(hm_)),
+                         dict(op="call_kernel", model="hayter_msa", q=hq_, cutoff=0.0, pars=dict(hm_)),
+                         dict(op="call_kernel", model="hayter_msa", q=[[0.05]], cutoff=0.0, pars=dict(hm_)),
+                         dict(op="call_kernel", model="hayter_msa", q=hq_, cutoff=0.0, pars=dict(hm_, charge=19.0, volfraction=0.05)),
+                         dict(op="call_kernel", model="hayter_msa", q=hq_, cutoff=0.0, pars=dict(hm_))])
     # corpus: a long thin cylinder at high q (sensitive to the size of the orientation quadrature), a variant of the
     # model with 150 Gauss points is derived, the model is loaded again by name and evaluated
     cyl_ = dict(op="call_kernel", model="cylinder", q=[[0.1, 0.2, 0.3]], cutoff=0.0, pars={"radius": 20.0, "length": 3000.0})
